@@ -2,10 +2,13 @@
    Only statements, closed by [exact]; proofs live in Proofs/Seal.v.
 
    [step H C s r]: one request (open / create on an existing name / write / fallocate / setattr /
-   release) of Model/Seal.v; [H] the host (fallocate oracle, s_maxbytes), [C] = {seal, no_open};
-   [sizes s f] the size of pre-existing regular file f. *)
+   release) of Model/Seal.v; [H] the host (fallocate oracle, s_maxbytes), [C] = {seal, no_open, fixes, writeback,
+   allow_direct_io}; [sizes s f] the size of pre-existing regular file f.  Every request carries its whole 32-bit
+   flag word; [openat_word] / [setfl_word] say which bits reach openat(2) / fcntl(F_SETFL), [host_open] /
+   [host_setfl] what linux does with them. *)
 From Coq Require Import List NArith Bool.
 From FB Require Import Model.Seal Proofs.Seal.
+From FB Require Lib.RustExpr Gen.RustPure Proofs.RustPure Proofs.RustPureSeal.
 Import ListNotations.
 Local Open Scope N_scope.
 
@@ -14,9 +17,10 @@ Local Open Scope N_scope.
    three ([all_fixes]); props/c18.py checks that against the source on every run and the tie runs the model
    with [all_fixes], so a tree without one of them is reported as a broken tie with a failing history. *)
 
-(* The statement as given, for the code as it is: with sealing on, no history of requests (any flags,
-   offsets, lengths, fallocate modes, setattr, open/create/release, with or without no_open) changes the
-   size of any pre-existing file. *)
+(* The statement as given, for the code as it is: with sealing on, no history of requests (ANY flag words - all
+   32 bits, open-time bits such as O_TRUNC / O_CREAT / O_PATH in the words of READ and WRITE included -, offsets,
+   lengths, fallocate modes, setattr with or without a handle, open/create/release, with or without no_open,
+   writeback, allow_direct_io) changes the size of any pre-existing file. *)
 Definition C18_full_for (fx : fixes) : Prop := sealed_sizes_full fx.
 Theorem C18_full : C18_full_for all_fixes.
 Proof. exact sealed_sizes_full_fixed. Qed.
@@ -42,19 +46,19 @@ Proof. exact sealed_sizes_outside_known. Qed.
 
 (* requests that stay within the current size (and do not ask for truncation / appending) behave exactly
    as without sealing (result and state), on any tree *)
-Theorem C18_within_size_same : forall H no_open fx wb s r,
+Theorem C18_within_size_same : forall H no_open fx wb dio s r,
   size_bounded s -> stays_within s r ->
-  step H (mk_cfg true no_open fx wb) s r = step H (mk_cfg false no_open fx wb) s r.
+  step H (mk_cfg true no_open fx wb dio) s r = step H (mk_cfg false no_open fx wb dio) s r.
 Proof. exact within_size_same. Qed.
 
-(* requests that would change a size are refused with EPERM/EINVAL and change no size, on any tree *)
-Theorem C18_refused : forall H no_open fx wb s r,
-  would_change s r ->
-  (get_data (mk_cfg true no_open fx wb) s (match r with Write k _ _ _ _ | Fallocate k _ _ _ _ => k | _ => 0 end)
-            (match r with Write _ f _ _ _ | Fallocate _ f _ _ _ => f | _ => 0 end) <> None \/
-   match r with Setattr _ _ _ => True | _ => False end) ->
-  (fst (step H (mk_cfg true no_open fx wb) s r) = EPERM \/ fst (step H (mk_cfg true no_open fx wb) s r) = EINVAL) /\
-  forall f, sizes (snd (step H (mk_cfg true no_open fx wb) s r)) f = sizes s f.
+(* requests that would change a size and reach a descriptor ([has_data]: a handle of the inode, or no_open) are
+   refused - EPERM/EINVAL from the seal, or EBADF when F_SETFL of the request's word fails on an O_PATH descriptor
+   before the seal is consulted - and change no size, on any tree *)
+Theorem C18_refused : forall H no_open fx wb dio s r,
+  would_change s r -> has_data (mk_cfg true no_open fx wb dio) s r ->
+  (fst (step H (mk_cfg true no_open fx wb dio) s r) = EPERM \/ fst (step H (mk_cfg true no_open fx wb dio) s r) = EINVAL
+   \/ fst (step H (mk_cfg true no_open fx wb dio) s r) = EBADF) /\
+  forall f, sizes (snd (step H (mk_cfg true no_open fx wb dio) s r)) f = sizes s f.
 Proof. exact refused_no_effect. Qed.
 
 (* the concrete linux/ext4 host model used by the tie satisfies the host hypothesis *)
@@ -63,30 +67,76 @@ Proof. exact tie_host_falloc_within. Qed.
 
 (* the three witnesses on the unrepaired model: a 10-byte file ends with 0, 0 and 14 bytes *)
 Example C18_unrepaired_witnesses :
-  sizes (snd (run tie_host (mk_cfg true false no_fixes false) w_state [Open 0 0 (N.lor 1 O_TRUNC)])) 0 = 0 /\
-  sizes (snd (run tie_host (mk_cfg true true no_fixes false) w_state [Create 0 0 (N.lor 2 O_TRUNC)])) 0 = 0 /\
-  sizes (snd (run tie_host (mk_cfg true false no_fixes false) w_state [Open 0 0 2; Write 0 0 0 4 (N.lor 2 O_APPEND)])) 0 = 14.
+  sizes (snd (run tie_host (mk_cfg true false no_fixes false true) w_state [Open 0 0 (N.lor 1 O_TRUNC)])) 0 = 0 /\
+  sizes (snd (run tie_host (mk_cfg true true no_fixes false true) w_state [Create 0 0 (N.lor 2 O_TRUNC)])) 0 = 0 /\
+  sizes (snd (run tie_host (mk_cfg true false no_fixes false true) w_state [Open 0 0 2; Write 0 0 0 4 (N.lor 2 O_APPEND)])) 0 = 14.
 Proof. exact (conj witness_open_trunc (conj witness_create_trunc (proj2 witness_write_append))). Qed.
 
 (* non-vacuity of the partial theorem: a history outside the known class on a satisfiable state, with
    an accepted in-size write, a refused write, a refused fallocate and a refused setattr *)
 Example C18_nonvacuous :
   slots_ok w_state /\
-  forallb (covered (mk_cfg true false all_fixes false))
-          [Open 0 0 2; Write 0 0 2 8 2; Write 0 0 8 8 2; Fallocate 0 0 0 0 11; Setattr 0 true 3] = true /\
-  fst (run tie_host (mk_cfg true false all_fixes false) w_state
-           [Open 0 0 2; Write 0 0 2 8 2; Write 0 0 8 8 2; Fallocate 0 0 0 0 11; Setattr 0 true 3])
+  forallb (covered (mk_cfg true false all_fixes false true))
+          [Open 0 0 2; Write 0 0 2 8 2; Write 0 0 8 8 2; Fallocate 0 0 0 0 11; Setattr 0 true 3 None] = true /\
+  fst (run tie_host (mk_cfg true false all_fixes false true) w_state
+           [Open 0 0 2; Write 0 0 2 8 2; Write 0 0 8 8 2; Fallocate 0 0 0 0 11; Setattr 0 true 3 None])
   = [0; 0; EPERM; EPERM; EPERM].
 Proof. split; [exact w_state_ok|split; reflexivity]. Qed.
 
 (* on the code as it is the three requests are answered EPERM and nothing changes *)
 Example C18_witnesses :
-  fst (run tie_host (mk_cfg true false all_fixes false) w_state
+  fst (run tie_host (mk_cfg true false all_fixes false true) w_state
            [Open 0 0 (N.lor 1 O_TRUNC); Create 0 0 (N.lor 2 O_TRUNC); Open 0 0 2; Write 0 0 0 4 (N.lor 2 O_APPEND)])
   = [EPERM; EPERM; 0; EPERM] /\
-  sizes (snd (run tie_host (mk_cfg true false all_fixes false) w_state
+  sizes (snd (run tie_host (mk_cfg true false all_fixes false true) w_state
            [Open 0 0 (N.lor 1 O_TRUNC); Create 0 0 (N.lor 2 O_TRUNC); Open 0 0 2; Write 0 0 0 4 (N.lor 2 O_APPEND)])) 0 = 10.
 Proof. split; reflexivity. Qed.
+
+(* the flag words of READ / WRITE / FALLOCATE are under the quantifier of [C18_full]: a READ and a WRITE whose words
+   carry O_TRUNC (or every bit at once, or O_TRUNC|O_CREAT), with ordinary handles and under no_open where the
+   descriptor is opened for the request - for every host, writeback and allow_direct_io setting no size changes *)
+Example C18_io_flag_words_covered : forall H no_open wb dio, falloc_within H ->
+  forall f, sizes (snd (run H (mk_cfg true no_open all_fixes wb dio) w_state
+    (Open 0 0 2 :: [Read 0 0 O_TRUNC; Write 0 0 0 1 (N.lor 2 O_TRUNC); Read 0 0 ALL_BITS; Write 0 0 0 1 ALL_BITS;
+                    Write 0 0 0 1 (N.lor (N.lor 2 O_TRUNC) O_CREAT); Fallocate 0 0 0 0 1]))) f = sizes w_state f.
+Proof. exact io_flag_words_covered. Qed.
+(* those requests are served, not merely refused (F_SETFL ignores O_TRUNC; the all-ones word carries O_APPEND: EPERM) *)
+Example C18_io_flag_words_served :
+  fst (run tie_host (mk_cfg true true all_fixes false true) w_state io_flag_history) = [0; 0; 0; EPERM; 0; 0] /\
+  fst (run tie_host (mk_cfg true false all_fixes false true) w_state (Open 0 0 2 :: io_flag_history)) = [0; 0; 0; 0; EPERM; 0; 0].
+Proof. exact io_flag_words_served. Qed.
+(* what the theorem rules out: were the word of the request merged into the word given to open_inode
+   (access | (flags & !O_ACCMODE)), openat(2) would receive O_TRUNC and cut the 10-byte file to 0; as coded
+   ([io_open_flags]) the host is handed the fixed access mode only *)
+Example C18_io_flag_leak_would_truncate : forall wb dio,
+  snd (fst (host_open 10 (openat_word wb dio (N.lor 2 (clear_bits (N.lor 2 O_TRUNC) O_ACCMODE))))) = 0 /\
+  snd (fst (host_open 10 (openat_word wb dio (io_open_flags 2 (N.lor 2 O_TRUNC))))) = 10.
+Proof. exact io_flag_leak_would_truncate. Qed.
+(* which bits of a word reach the host: O_TRUNC survives open_inode's adjustments, F_SETFL never sees more than status bits *)
+Theorem C18_openat_word_keeps_trunc : forall wb dio fl, has (openat_word wb dio fl) O_TRUNC = has fl O_TRUNC.
+Proof. exact openat_word_trunc. Qed.
+
+(* ---- tie to the source text (Gen/RustPure.v is re-translated from src/passthrough/mod.rs on every run): the model's
+   [seal_size_check] is what the body of PassthroughFs::seal_size_check computes under rustc's integer semantics, for all
+   sizes, offsets and fallocate modes, in debug and in release builds ([seal_result e]: Ok(()) for 0, Err(errno e)) *)
+Theorem C18_src_seal_size_check_write : forall fsz off len mode,
+  fsz < 18446744073709551616 -> off < 18446744073709551616 -> len < 18446744073709551616 -> mode < 4294967296 ->
+  RustExpr.eval_fn RustExpr.Debug RustPure.seal_size_check_src
+    [RustExpr.VEnum RustPureSeal.op_write; RustExpr.VInt RustExpr.U64 fsz; RustExpr.VInt RustExpr.U64 off; RustExpr.VInt RustExpr.U64 len; RustExpr.VInt RustExpr.I32 mode] =
+  RustPureSeal.seal_result (seal_size_check true fsz off len mode).
+Proof. exact RustPureSeal.src_seal_size_check_write. Qed.
+Theorem C18_src_seal_size_check_fallocate : forall fsz off len mode,
+  fsz < 18446744073709551616 -> off < 18446744073709551616 -> len < 18446744073709551616 -> mode < 4294967296 ->
+  RustExpr.eval_fn RustExpr.Debug RustPure.seal_size_check_src
+    [RustExpr.VEnum RustPureSeal.op_fallocate; RustExpr.VInt RustExpr.U64 fsz; RustExpr.VInt RustExpr.U64 off; RustExpr.VInt RustExpr.U64 len; RustExpr.VInt RustExpr.I32 mode] =
+  RustPureSeal.seal_result (seal_size_check false fsz off len mode).
+Proof. exact RustPureSeal.src_seal_size_check_fallocate. Qed.
+Theorem C18_src_seal_size_check_release : forall (w : bool) fsz off len mode,
+  fsz < 18446744073709551616 -> off < 18446744073709551616 -> len < 18446744073709551616 -> mode < 4294967296 ->
+  RustExpr.eval_fn RustExpr.Release RustPure.seal_size_check_src
+    [RustExpr.VEnum (if w then RustPureSeal.op_write else RustPureSeal.op_fallocate); RustExpr.VInt RustExpr.U64 fsz; RustExpr.VInt RustExpr.U64 off; RustExpr.VInt RustExpr.U64 len; RustExpr.VInt RustExpr.I32 mode] =
+  RustPureSeal.seal_result (seal_size_check w fsz off len mode).
+Proof. exact RustPureSeal.src_seal_size_check_release. Qed.
 
 Print Assumptions C18_full.
 Print Assumptions C18_unrepaired_refuted.
@@ -95,3 +145,7 @@ Print Assumptions C18_partial_outside_known.
 Print Assumptions C18_within_size_same.
 Print Assumptions C18_refused.
 Print Assumptions C18_host_model_ok.
+Print Assumptions C18_openat_word_keeps_trunc.
+Print Assumptions C18_src_seal_size_check_write.
+Print Assumptions C18_src_seal_size_check_fallocate.
+Print Assumptions C18_src_seal_size_check_release.
